@@ -340,6 +340,9 @@ pub fn cb_matches(cb: &Cb, e: &ExpCb) -> Result<(), (String, String)> {
                 if e.typ != g.coltype {
                     return Err(("param-type".into(), format!("parameter {}: coltype 0x{:02x}, client bound 0x{:02x}", i, g.coltype, e.typ)));
                 }
+                if g.is_null != matches!(g.inner, Inner::Null) {
+                    return Err(("param-value".into(), format!("parameter {}: Value::is_null() says {}, into_inner() yields {}", i, g.is_null, show_inner(&g.inner))));
+                }
                 if !inner_matches(&g.inner, &e.val) {
                     return Err((
                         "param-value".into(),
